@@ -5,7 +5,9 @@ import concurrent.futures, glob, json, os, re, shutil, subprocess, sys, tempfile
 HERE = os.path.dirname(os.path.dirname(os.path.abspath(__file__)))
 SCRATCH = os.environ.get("VERIF_SCRATCH", "/var/tmp")
 WRITE = True
-DECLARED_MISS = {"C07-w2m1": "edits stk.rs and its oracle stk_script.py consistently; the fixing file that would contradict it starts later (DESIGN 10.6)"}
+DECLARED_MISS = {"C07-w2m1": "edits stk.rs and its oracle stk_script.py consistently; the fixing file that would contradict it starts later (DESIGN 10.6)",
+                 "C19-w8m2": "`f64 % Dual` takes its value from the built-in `%` (exact fmod) and its gradient from trunc(a/b): equal to a - trunc(a/b)*b as real functions, "
+                             "different only in rounding — which C19's claim does not decide; today's `Dual % f64` is written the same way (DESIGN 10.6)"}
 
 
 def one(d):
